@@ -28,7 +28,9 @@ var mixedAlgs bool
 
 // "/bar", "/a", "/foo": an EMPTY segment followed by a non-empty one ("/foo//bar" is a valid command, distinct
 // from and unrelated to "/foo/bar")
-var CmdSegs = []string{"foo", "foobar", "fo", "bar", "a", "ab", "é", "λόγος", "λόγοσ", "σ", "ς", "/bar", "/a", "/foo", "θ", "ϑ", "*", "*", "**", "?", "%2a", "..", ".", "~", "+", "{x}", ":id"}
+var CmdSegs = []string{"foo", "foobar", "fo", "bar", "a", "ab", "é", "λόγος", "λόγοσ", "σ", "ς", "/bar", "/a", "/foo", "θ", "ϑ", "*", "*", "**", "?", "%2a", "..", ".", "~", "+", "{x}", ":id",
+	// names of the length real commands have (a command of three of these is 40..90 bytes long)
+	"storage", "bucket-objects", "object-versions", "write", "0123456789abcdef0123456789abcdef", "crud"}
 
 func drawPrin(t *rapid.T, label string) int {
 	if mixedAlgs {
